@@ -430,8 +430,79 @@ m = g(r.sub, p.sub, r.dom) && r.dom == p.dom && r.obj == p.obj && r.act == p.act
     chk.extra.setdefault("strata", {})["incremental_filtered_steps"] = n
 
 
+# ----------------------------------------------------------------------------- a store that holds a grouping line more than once
+KNOWN_DUP = "C04/repeated-store-line-removal"
+W_DUP = dict(p_add=1, p_add_many=0.5, p_remove=1, p_remove_many=0.5, p_remove_filtered=0.5, p_update=0, p_update_many=0,
+             p_update_filtered=0, g_add=4, g_add_many=2, g_remove=7, g_remove_many=4, g_remove_filtered=2, rbac=5,
+             clear=0.3, load=1.5, save=0, build=0.7, flags=0, query=4, probe=3)
+W_DUP_NOBATCH = dict(W_DUP, g_remove=0, g_remove_many=0, p_remove_many=0, g_remove_filtered=0, rbac=0)
+
+
+def repeated_batch_removal(kind, rows, ops):
+    """the store the enforcer was built from holds a grouping line more than once, and the history removes grouping rules:
+    a single or batch removal naming the repeated rule, or a filtered removal (remove_filtered_grouping_policy,
+    delete_user, delete_role, delete_role_for_user, delete_roles_for_user[_in_domain])"""
+    from collections import Counter
+    cnt = Counter((pt, tuple(r)) for pt, r in rows if pt in (1, 2))
+    dups = {k for k, v in cnt.items() if v > 1}
+    if not dups:
+        return False
+    return any((op[0] == 3 and op[1] in (1, 2) and (op[1], tuple(op[2])) in dups)
+               or (op[0] == 4 and op[1] in (1, 2) and any((op[1], tuple(r)) in dups for r in op[2]))
+               or (op[0] == 5 and op[1] in (1, 2)) or op[0] in (9, 10, 11, 17, 18, 20) for op in ops)
+
+
+def spec_check_dup(kind, rows, lf, ops, obs, impl):
+    out = []
+    for k, what, tag in spec_check(kind, rows, lf, ops, obs, impl):
+        out.append((k, what, KNOWN_DUP if (tag is None and repeated_batch_removal(kind, rows, ops[:k + 1])) else tag))
+    return out
+
+
+spec_check_dup.case_extra = dict(variant="repeated-store-line", model_compared=False)
+
+
+def known_probe_dup(chk):
+    """the listed finding, replayed on every run: the store holds `g, alice, admin` twice (a hand-edited CSV); after
+    remove_grouping_policies([[alice, admin]]) one copy is still in the policy (get_grouping_policy lists it, a fresh
+    enforcer on the current policy grants alice the role) but the single uncounted link is gone"""
+    A = mgmt.ATOMS.a
+    kind = mgmt.KINDS["rbac"]
+    uni = mgmt.Universe(kind)
+    rows = [(0, [A("admin"), A("data1"), A("read")]), (1, [A("alice"), A("admin")]), (1, [A("alice"), A("admin")])]
+    ops = mgmt.probe_ops(kind, uni) + [(4, 1, [[A("alice"), A("admin")]])] + mgmt.probe_ops(kind, uni)
+    mgmt.run_cases(chk, kind, [(rows, True, ops)], spec_check_dup, label="known-finding-probe-repeated-store-line",
+                   compare_model=False)
+
+
+def dup_cases(rng, kind, n):
+    """the store repeats one to three of its lines (grouping lines mostly); single, batch and filtered removals aimed at
+    the repeated rules, adds, reloads and rebuilds; half of the histories without removals of grouping rules (adds, reloads,
+    rebuilds, permission calls), so that nothing else is hidden behind the listed finding"""
+    uni = mgmt.Universe(kind)
+    probe = mgmt.probe_ops(kind, uni)
+    for i in range(n):
+        gen = mgmt.Gen(rng, kind, W_DUP if i % 2 == 0 else W_DUP_NOBATCH)
+        rows = gen.rows(rng.randint(2, 8))
+        grows = [x for x in rows if x[0] in (1, 2)] or rows
+        for _ in range(rng.randint(1, 3)):
+            pt, r = rng.choice(grows if rng.random() < 0.8 else rows)
+            at = rng.randint(0, len(rows))
+            rows = rows[:at] + [(pt, list(r))] + rows[at:]
+        ops = list(probe) if rng.random() < 0.5 else []
+        ops += gen.history(rng.randint(3, 12))
+        ops += probe
+        yield (rows, True, mgmt.drop_prefix_aliases(kind, rows, ops))
+
+
 def run_store_and_matcher(chk, n):
     stratum_incremental_filtered(chk)
+    known_probe_dup(chk)
+    for kn in ("rbac", "dom", "rbac_res"):
+        kind = mgmt.KINDS[kn]
+        cases = list(dup_cases(chk.rng, kind, n))
+        mgmt.run_cases(chk, kind, cases, spec_check_dup, label=f"repeated-store-lines-{kn}", compare_model=False)
+        chk.extra.setdefault("strata", {})[f"repeated_store_lines_{kn}"] = len(cases)
     rng = chk.rng
     strata = chk.extra.setdefault("strata", {})
     for kn in ("rbac", "dom", "rbac_res"):
@@ -462,10 +533,12 @@ def replay(chk):
             raise SystemExit(1)
         print("replay passes: the stratum reports nothing on this tree")
         raise SystemExit(0)
-    if v in ("store", "domain-matcher"):
+    if v in ("store", "domain-matcher", "repeated-store-line"):
         chk.oracle = None                 # out-of-band store edits / matching functions are outside the Mgmt model
     if v == "domain-matcher":
         return mgmt.replay_case(chk, spec_check_dm, impl_kwargs=DM_KW)
+    if v == "repeated-store-line":
+        return mgmt.replay_case(chk, spec_check_dup)
     return mgmt.replay_case(chk, spec_check)
 
 
